@@ -231,7 +231,8 @@ type checker struct {
 	sigMu   sync.Mutex
 	sigHist map[string]int
 	// set when StoreChannel.NewReader was proven to self-deadlock with checksum verification on
-	crcDeadlock atomic.Bool
+	crcDeadlock  atomic.Bool
+	deadlockViol atomic.Int32
 }
 
 // modeGate serialises the two settings of the process-global Channel.VerifyCrc that
@@ -362,11 +363,12 @@ type readResult struct {
 	Extra     int64 // bytes available beyond the reported right edge (verified too)
 	Stalled   bool
 	OpenHung  bool // NewReader itself never returned
+	Deadlock  bool // ... and its goroutine is parked on a lock its own frame holds
 	Limited   bool // fewer bytes requested than promised because the image does not hold them
 }
 
 const readWatchdog = 20 * time.Second
-const openWatchdog = 5 * time.Second
+const openWatchdog = 3 * time.Second
 
 // stackHas reports whether one goroutine's stack contains all the given frames.
 func stackHas(frames ...string) bool {
@@ -423,6 +425,7 @@ func (c *checker) readStream(img *image, di dirInfo, ch *syncer.StoreChannel, ru
 	if res.OpenHung {
 		// not a timing matter if the opener is parked on a lock its own frame holds
 		if stackHas("store.(*Storer).GetReader", "isCorrupted", "sync.(*RWMutex).RLock") {
+			res.Deadlock = true
 			c.crcDeadlock.Store(true)
 			c.r.Count("newreader_self_deadlocks", 1)
 		} else {
@@ -520,11 +523,6 @@ func (c *checker) readStream(img *image, di dirInfo, ch *syncer.StoreChannel, ru
 	case <-done:
 	case <-time.After(readWatchdog):
 		res.Stalled = true
-		if os.Getenv("VERIF_C08_DEBUG") != "" {
-			fmt.Fprintf(os.Stderr, "STALL %s/img%d crc=%v off=%d right=%d got=%d want=%d isaof=%v\n", img.Case, img.Idx, crc, off, right, res.Got, res.Want, res.IsAof)
-			b, _ := json.Marshal(map[string]any{"witness": map[string]any{"image": img}})
-			_ = os.WriteFile(fmt.Sprintf("/tmp/c08b-out/stall-%s-%d.json", img.Case, img.Idx), b, 0o644)
-		}
 	}
 	wait.Close(nil)
 	rd.Close()
@@ -928,13 +926,22 @@ func (c *checker) alter(img *image, runId string, di dirInfo, rng *rand.Rand, n 
 				if rep.L != -1 && off >= rep.L && off <= rep.R {
 					right = rep.R
 				}
-				if c.crcDeadlock.Load() && willBeLogReader(adi, off) {
+				if c.crcDeadlock.Load() && willBeLogReader(adi, off) && (c.deadlockViol.Load() >= 3 || !a.Content) {
 					outcome = "unobservable-newreader-deadlock"
 					continue
 				}
 				res := c.readStream(img, adi, ch, runId, off, right, true)
 				if res.OpenHung {
 					outcome = "unobservable-newreader-deadlock"
+					if res.Deadlock && a.Content {
+						// the segment must be refused; the opener neither refuses nor serves - and
+						// that is not a matter of time: it waits for a lock its own frame holds
+						c.deadlockViol.Add(1)
+						outcome = "never-refused-newreader-deadlock"
+						c.r.Violation("crc|altered-segment-not-refused|newreader-self-deadlock", key,
+							fmt.Sprintf("checksum verification on: closed segment [%d,%d) no longer matches its recorded size/checksum (%s); the reader opened at %d is never refused: StoreChannel.NewReader does not return (Storer.GetReader holds dataSetMux for writing and NewAofRotateReader->isCorrupted->hasWriter->getDataSet read-locks it again)", lo, hi, a.Kind, off),
+							w(map[string]any{"reader_at": off, "read": res}))
+					}
 					return
 				}
 				if res.Refused || !res.IsAof {
@@ -1554,8 +1561,10 @@ func main() {
 			r.Inconclusive("only %d images (< %d) after %d cases", r.Counter("images"), wantImages, cases)
 		}
 		if c.crcDeadlock.Load() {
-			r.Inconclusive("with checksum verification on StoreChannel.NewReader never returns for an offset held by a log segment: Storer.GetReader holds dataSetMux (write) and NewAofRotateReader->isCorrupted->hasWriter->getDataSet read-locks it again (self-deadlock, proven from the goroutine stack, %d occurrences); log readers and segment alterations under crc-on are therefore unobservable on this tree (skipped: %d probes). See proposed_fixes/C08-getreader-crc-deadlock.diff",
-				r.Counter("newreader_self_deadlocks"), r.Counter("crc_on_log_probes_skipped_after_deadlock"))
+			r.Set("crc_on_log_readers", fmt.Sprintf("UNOBSERVABLE on this tree: StoreChannel.NewReader self-deadlocks with checksum verification on (%d proven occurrences, %d probes skipped afterwards)", r.Counter("newreader_self_deadlocks"), r.Counter("crc_on_log_probes_skipped_after_deadlock")))
+			if c.deadlockViol.Load() == 0 {
+				r.Inconclusive("with checksum verification on StoreChannel.NewReader never returns for an offset held by a log segment (self-deadlock on dataSetMux, proven from the goroutine stack); no altered segment was probed, so the refusal clause is unobserved")
+			}
 		}
 		if r.Counter("bytes_verified") == 0 {
 			r.Inconclusive("no byte was read back")
